@@ -1,11 +1,15 @@
 pub mod c01;
 pub mod c02;
+pub mod c04;
+pub mod c05;
+pub mod c06;
 pub mod c07;
 pub mod c10;
 pub mod c11;
 pub mod c18;
 pub mod c20;
 pub mod c32;
+pub mod c38;
 pub mod c40;
 pub mod docpool;
 
@@ -43,6 +47,9 @@ pub fn run(prop: &str, args: &Args) -> i32 {
     match prop {
         "C01" => c01::run(args),
         "C02" => c02::run(args),
+        "C04" => c04::run(args),
+        "C05" => c05::run(args),
+        "C06" => c06::run(args),
         "C07" => c07::run(args),
         "C10" => c10::run(args),
         "C11" => c11::run(args),
@@ -51,6 +58,7 @@ pub fn run(prop: &str, args: &Args) -> i32 {
         "C21" => c20::run_c21(args),
         "C22" => c20::run_c22(args),
         "C32" => c32::run(args),
+        "C38" => c38::run(args),
         "C40" => c40::run(args),
         _ => {
             eprintln!("unknown property {}", prop);
